@@ -25,7 +25,9 @@ Carve-outs (Fetch.tla): after a complete-looking file with a wrong checksum the 
 ChksumFailure at once -- the property is read over executed attempts; without checksums a
 non-zero exit discards the file (pinned by tests/fetch/test_custom.py) and an empty file with
 exit 0 is left open; an already verified file present before the first attempt is not required
-to be returned by the completeness clause (it is by the code).
+to be returned by the completeness clause (it is by the code); a distfile whose reference content
+is zero-length is only generated for targets that carry the size checksum (without it nothing
+tells the correct empty file from an empty leftover).
 """
 import os
 import shutil
@@ -81,6 +83,8 @@ class Bench:
 
 def fixtures(good):
     """The files a scripted command can leave, relative to the reference content."""
+    if not good:  # the distfile itself is empty: only the good file and longer ones exist
+        return dict(good="", partial="", oversize="++", corrupt="", empty="")
     half = max(1, len(good) // 2)
     flip = "x" if good[0] != "x" else "y"
     return dict(good=good, partial=good[:half] if len(good) > 1 else "", oversize=good + "++", corrupt=flip + good[1:], empty="")
@@ -205,14 +209,18 @@ KIND_CHK = {"none": [], "size": ["size"], "hash": ["sha512", "blake2b"], "both":
 
 
 def case_of_beh(beh, good="reference-content"):
+    if beh.get("zero"):
+        good = ""
     return dict(kind=beh["kind"], budget=beh["budget"], nuris=beh["nuris"], init=beh["init"], chk=KIND_CHK[beh["kind"]], good=good,
                 steps=[[*act_of(o["w"]), o["exit"]] for o in beh["outcomes"]])
 
 
 def random_case(r_, allchf, with_rm):
-    good = "".join(r_.choice("abcdefghijklmnopqrstuvwxyz0123456789") for _ in range(r_.choice([1, 2, 7, 64, 900, 3000])))
     hashes = r_.sample(allchf, r_.randint(0, 3))
     size = r_.random() < 0.6
+    # a zero-length distfile needs the size checksum to be told from an empty leftover (carve-out)
+    lengths = [0, 0, 1, 2, 7, 64, 900, 3000] if size else [1, 2, 7, 64, 900, 3000]
+    good = "".join(r_.choice("abcdefghijklmnopqrstuvwxyz0123456789") for _ in range(r_.choice(lengths)))
     kind = ("both" if hashes else "size") if size else ("hash" if hashes else "none")
     chk = (["size"] if size else []) + hashes
     case = dict(kind=kind, budget=r_.randint(1, 6), nuris=r_.randint(1, 7), chk=chk, good=good)
